@@ -62,7 +62,7 @@ static Verdict runRoundtrip(const W &w) {
   PBT_CHECK(vd, op.r != nullptr, "a file whose writer calls all returned OK does not re-open (%s): %s", rd::modeName(w.mode), op.err.message);
   int64_t total = 0; for (auto g : groups) total += w.fs.rg_rows[g];
   PBT_CHECK(vd, carquet_reader_num_rows(op.r) == total, "num_rows %lld, %lld rows were written", (long long)carquet_reader_num_rows(op.r), (long long)total);
-  PBT_CHECK(vd, carquet_reader_num_row_groups(op.r) == (int32_t)groups.size(), "num_row_groups %d, %zu non-empty row groups were written", carquet_reader_num_row_groups(op.r), groups.size());
+  if (w.rg_size <= 0) PBT_CHECK(vd, carquet_reader_num_row_groups(op.r) == (int32_t)groups.size(), "num_row_groups %d, %zu non-empty row groups were written", carquet_reader_num_row_groups(op.r), groups.size());
   PBT_CHECK(vd, carquet_reader_num_columns(op.r) == (int32_t)lv.size(), "num_columns %d, schema has %zu", carquet_reader_num_columns(op.r), lv.size());
   for (size_t c = 0; c < lv.size(); c++) {
     rd::ColInfo ci;
@@ -71,6 +71,26 @@ static Verdict runRoundtrip(const W &w) {
     PBT_CHECK(vd, ci.tl == (lv[c].type == pq::FIXED_LEN_BYTE_ARRAY ? lv[c].type_length : 0), "column %zu type length %d, written %d", c, ci.tl, lv[c].type_length);
     const carquet_schema_node_t *n = carquet_schema_get_element(carquet_reader_schema(op.r), (int32_t)c + 1);
     PBT_CHECK(vd, n && (int)carquet_schema_node_repetition(n) == (lv[c].max_def ? 1 : 0), "column %zu repetition differs", c);
+  }
+  if (w.rg_size > 0) {
+    // with a row-group size target the writer may split groups on its own: compare the table, not the grouping
+    int32_t nrgf = carquet_reader_num_row_groups(op.r);
+    for (size_t c = 0; c < lv.size(); c++) {
+      rd::Content all; std::string e2; int64_t rows_meta = 0;
+      for (int32_t gi = 0; gi < nrgf; gi++) {
+        carquet_row_group_metadata_t m; PBT_CHECK(vd, carquet_reader_row_group_metadata(op.r, gi, &m) == CARQUET_OK, "row_group_metadata(%d) fails", gi); rows_meta += m.num_rows;
+        rd::Content got; bool ok = rd::readChunk(op.r, gi, (int)c, w.batch, lv[c].max_def, got, e2);
+        PBT_CHECK(vd, ok, "reading back row group %d column %zu fails: %s", gi, c, e2.c_str());
+        PBT_CHECK(vd, got.rows == m.num_rows, "row group %d column %zu delivers %lld rows, the row group states %lld", gi, c, (long long)got.rows, (long long)m.num_rows);
+        all.def.insert(all.def.end(), got.def.begin(), got.def.end()); all.values.insert(all.values.end(), got.values.begin(), got.values.end()); all.rows += got.rows;
+      }
+      std::vector<int16_t> wdef; std::vector<Bytes> wval;
+      for (auto g : groups) { const pw::ChunkSpec &cs = w.fs.row_groups[g][c]; for (size_t i = 0; i < cs.n; i++) wdef.push_back((int16_t)(lv[c].max_def ? cs.def[i] : 0)); wval.insert(wval.end(), cs.values.begin(), cs.values.end()); }
+      PBT_CHECK(vd, rows_meta == total && all.rows == total, "column %zu: %lld rows read back over %d row groups (metadata says %lld), %lld written", c, (long long)all.rows, nrgf, (long long)rows_meta, (long long)total);
+      PBT_CHECK(vd, all.def == wdef, "column %zu: null positions read back differ from the ones written (row_group_size %lld)", c, (long long)w.rg_size);
+      PBT_CHECK(vd, all.values == wval, "column %zu: values read back differ from the ones written (row_group_size %lld)", c, (long long)w.rg_size);
+    }
+    return vd;
   }
   for (size_t gi = 0; gi < groups.size(); gi++) {
     size_t g = groups[gi];
@@ -106,6 +126,16 @@ static Verdict runStructure(const W &w) {
   auto groups = nonEmptyGroups(w);
   PBT_CHECK(vd, fo.leaves.size() == lv.size(), "independent reader sees %zu leaf columns, %zu written", fo.leaves.size(), lv.size());
   for (size_t c = 0; c < lv.size(); c++) PBT_CHECK(vd, fo.leaves[c].path == lv[c].path && fo.leaves[c].type == lv[c].type && fo.leaves[c].max_def == lv[c].max_def && fo.leaves[c].max_rep == 0 && (lv[c].type != pq::FIXED_LEN_BYTE_ARRAY || fo.leaves[c].type_length == lv[c].type_length), "schema column %zu differs in the file", c);
+  if (w.rg_size > 0) {
+    // grouping may differ from the explicit new_row_group calls; the independent reader has already checked that every
+    // group is consistent in itself (chunk value counts = group rows, ...): compare the concatenated table
+    for (size_t c = 0; c < lv.size(); c++) {
+      std::vector<int16_t> wdef, gdef; std::vector<Bytes> wval, gval;
+      for (auto g : groups) { const pw::ChunkSpec &cs = w.fs.row_groups[g][c]; for (size_t i = 0; i < cs.n; i++) wdef.push_back((int16_t)(lv[c].max_def ? cs.def[i] : 0)); wval.insert(wval.end(), cs.values.begin(), cs.values.end()); }
+      for (size_t gi = 0; gi < fo.chunks.size(); gi++) { const prd::ChunkOut &co = fo.chunks[gi][c]; PBT_CHECK(vd, (int64_t)co.def.size() == fo.meta.row_groups[gi].num_rows, "row group %zu column %zu stores %zu rows, the group states %lld", gi, c, co.def.size(), (long long)fo.meta.row_groups[gi].num_rows); gdef.insert(gdef.end(), co.def.begin(), co.def.end()); gval.insert(gval.end(), co.values.begin(), co.values.end()); }
+      PBT_CHECK(vd, gdef == wdef && gval == wval, "column %zu: the table stored in the file (row_group_size %lld, %zu row groups) differs from the table written", c, (long long)w.rg_size, fo.chunks.size());
+    }
+  } else {
   PBT_CHECK(vd, fo.chunks.size() == groups.size(), "file holds %zu row groups, %zu non-empty groups were written", fo.chunks.size(), groups.size());
   for (size_t gi = 0; gi < groups.size(); gi++) {
     size_t g = groups[gi];
@@ -117,6 +147,7 @@ static Verdict runStructure(const W &w) {
       for (size_t i = 0; i < cs.n; i++) PBT_CHECK(vd, co.def[i] == (lv[c].max_def ? cs.def[i] : 0), "row group %zu column %zu row %zu: stored definition level %d, written %d", gi, c, i, co.def[i], lv[c].max_def ? cs.def[i] : 0);
       PBT_CHECK(vd, co.values == cs.values, "row group %zu column %zu: values stored in the file differ from the values written (%zu vs %zu)", gi, c, co.values.size(), cs.values.size());
     }
+  }
   }
   // determinism: same table, same options, fresh writer -> identical bytes
   if (!writeWith(w, lv, bytes2, err, refused)) return Verdict::fail("second write of the same table failed: " + err);
